@@ -333,6 +333,27 @@ PROPS = {
             'unit loopcount (Kani): Frame::Builtin frames are not among the generated frames',
         ],
     },
+    'C05': {
+        'v_units': ['globchars'],
+        'k_units': [],
+        'level': 'other',
+        'explanation': (
+            'One mechanism of C05 only: the conversion of the attributed characters of a field into pattern characters '
+            '(yash-semantics/src/expansion/glob.rs, the iterator Chars inside to_pattern - the anchor "conversion of attributed characters to '
+            'pattern characters"). Verus proves on the real Chars::next, for fields of every length: quoting characters (the quotes, the '
+            'backslash of an escape) never reach the pattern; every other character yields exactly one pattern character with its own value, in '
+            'order; it is a LITERAL pattern character - one that the pattern parser (proved in C04, unit fnparse) never treats as ? * [ or a '
+            'bracket operator - if and only if it was quoted, is the result of a tilde or other hard expansion, or directly follows an unquoted '
+            'backslash; so quoted text and tilde results are never wildcards, and unquoted text keeps its special meaning. NOT decided: the '
+            'directory search itself (search_dir / push_component: component-wise matching against the directory entries, slashes, the '
+            'leading-period rule, "." and ".."), that exactly the existing matching paths are returned, the sort, the fallback to the '
+            'quote-removed field, noglob: they run over the file system of the System trait, String prefixes and the regex engine.'),
+        'trusted_base': ['Verus 0.2026.09.13 + Z3', 'vstd iterator model (IteratorSpec: prophetic remaining())', '/verif/tools/vextract.py'],
+        'assumptions': [
+            'the slice iterator obeys vstd\'s iterator laws (a precondition of the contract); `for c in &mut self.inner` is checked as `while let Some(c) = self.inner.next()`',
+            'the local struct Chars and its Iterator impl are lifted out of the function body (rule nested-item-lifted) and next is checked as an inherent method; PatternChar is a same-named two-variant enum; mem::replace has an assumed contract; derived PartialEq of Origin is structural',
+        ],
+    },
     'C09': {
         'v_units': ['redir'],
         'k_units': [],
